@@ -34,6 +34,10 @@ type Op struct {
 
 type Case struct {
 	Ops []Op `json:"ops"`
+	// Redeliver[i] (if present and >= 0): after step i the replica "C" is handed broadcast
+	// number Redeliver[i] (mod the number queued so far) once more - a gossip retransmission
+	// of an older update. Replica "B" gets every broadcast exactly once, in order.
+	Redeliver []int `json:"redeliver,omitempty"`
 }
 
 var topicPool = []string{"a", "a/b", "a/b/c", "a/c", "b", "a/", "a//b", "/a", "c/a/b", "b/c"}
@@ -82,7 +86,8 @@ func run(c Case) (msg string, nt bool) {
 		}
 	}()
 	defer dst.InstallClock()()
-	a, b := dst.NewNode(1), dst.NewNode(2)
+	a, b, cRep := dst.NewNode(1), dst.NewNode(2), dst.NewNode(3)
+	var all [][]byte
 	model := map[string]string{}
 	clock := int64(1000)
 	for i, op := range c.Ops {
@@ -113,6 +118,11 @@ func run(c Case) (msg string, nt bool) {
 		}
 		for _, m := range a.Drain() {
 			b.Deliver(m)
+			cRep.Deliver(m)
+			all = append(all, m)
+		}
+		if i < len(c.Redeliver) && c.Redeliver[i] >= 0 && len(all) > 0 {
+			cRep.Deliver(all[c.Redeliver[i]%len(all)])
 		}
 		for _, f := range smallFilters {
 			var want []string
@@ -125,7 +135,7 @@ func run(c Case) (msg string, nt bool) {
 			for _, n := range []struct {
 				name string
 				node *dst.Node
-			}{{"writer", a}, {"replica", b}} {
+			}{{"writer", a}, {"replica", b}, {"replica with re-delivered older broadcasts", cRep}} {
 				got, err := get(n.node, f)
 				if err != nil {
 					return fmt.Sprintf("step %d: %s: Get(%q): %v", i, n.name, f, err), nt
@@ -142,7 +152,7 @@ func run(c Case) (msg string, nt bool) {
 func check(t ev.TB, c Case, labels ...string) {
 	msg, nt := run(c)
 	ev.Case(nt, c, labels...)
-	ev.Count("filter_queries", int64(2*len(smallFilters)*len(c.Ops)))
+	ev.Count("filter_queries", int64(3*len(smallFilters)*len(c.Ops)))
 	if msg != "" {
 		ev.Fail(t, "retained-state", c, "%s", msg)
 	}
@@ -167,6 +177,7 @@ func TestState(t *testing.T) {
 			} else {
 				c.Ops = append(c.Ops, Op{Op: "set", Topic: tp, Payload: rapid.SampledFrom([]string{"p1", "p2", "p3"}).Draw(t, "payload")})
 			}
+			c.Redeliver = append(c.Redeliver, rapid.IntRange(-1, 20).Draw(t, "redeliver"))
 		}
 		check(t, c)
 	})
@@ -189,7 +200,9 @@ func TestStateEnum(t *testing.T) {
 				if idx%sn != si {
 					return
 				}
-				check(t, Case{Ops: append([]Op{}, prefix...)}, "enum")
+				// the replica with re-deliveries gets the first broadcast again after every step
+				rd := make([]int, len(prefix))
+				check(t, Case{Ops: append([]Op{}, prefix...), Redeliver: rd}, "enum")
 				return
 			}
 			for _, o := range al {
